@@ -358,10 +358,20 @@ let () =
        let slice st n = if st >= len || n > len - st then None else Some (String.concat "" (List.init n (fun k -> Printf.sprintf "%02x" arr.(st + k)))) in
        let exact_ok = (match String.split_on_char ' ' impl with
          | ["ok"; cnt; startup; mods; _; _] | ["ok"; cnt; startup; mods; _] ->
+           let it_impl = (match String.split_on_char ' ' impl with [_; _; _; _; _; it] -> it | _ -> "") in
            (match u32 4, u32 8 with
             | Some c, Some ss ->
               let soff = 12 + 8 * c in
               let st_ok = (match slice soff ss with Some x -> startup = x | None -> startup = "err") in
+              (* the iterator, item by item: ids in order, empty slots skipped, a broken entry is one Err item and the walk goes on with the next id *)
+              let exact_module i = (match u32 (12 + 8 * i), u32 (12 + 8 * i + 4) with
+                   | Some off, Some l -> if off = 0 && l = 0 then "none" else if l = 0 then "err"
+                                         else (match slice (soff + off) (l - 1) with Some x -> "=" ^ x | None -> "err")
+                   | _ -> "err") in
+              let rec walk k acc n = if n = 0 || k >= c then List.rev acc else
+                  (match exact_module k with "none" -> walk (k + 1) acc n | "err" -> walk (k + 1) ("err" :: acc) (n - 1) | m -> walk (k + 1) ((string_of_int k ^ m) :: acc) (n - 1)) in
+              let it_ok = (String.concat "," (walk 0 [] 8) = it_impl) in
+              it_ok &&
               let mods_ok = List.for_all (fun x -> x) (List.mapi (fun i got ->
                   if i >= 6 then got = "err" else                   (* the far ids (2^32-1 .. 2^64-1) are past every table *)
                   if i >= c then got = "err" else
